@@ -30,6 +30,10 @@ CHECKS = {
    text="Coq theorems about a byte-level model of the tokenizer whose recogniser table is regenerated from src/tokenizer/mod.rs on every run: the lexer is total; every byte string written as a literal comes back byte for byte and a literal's value is its body with exactly the documented escapes decoded; every token's line, column and offset are where it really starts and offsets increase; every multi-character operator wins whatever follows; all pairs of vocabulary tokens lex as two tokens glued iff no separator is needed; any two valid layouts (blanks, tabs, LF, CRLF, comments) of a token list lex to that list. Tied to the real tokenizer on all vocabulary pairs with 5 separators, triples, operators followed by every byte, random strings with every escape form, token sequences under two random layouts and every .ucg file - token type, text, line, column and offset must agree",
    note="positions are in bytes; special recognisers (strings, digits, barewords, comments, whitespace) are modelled by hand; non-UTF-8 input cannot reach the real tokenizer",
    technique="Coq proof (induction over the input with a position state; finite obligations by vm_compute over the generated table) + exhaustive/seeded correspondence"),
+ "C15": dict(category="proof",
+   text="JSON include is proved on the Coq model: an independent RFC 8259 parser followed by the mapping of src/convert/json.rs equals the specification (integers as integers iff the literal is integral and fits i64, otherwise floats; list order; keys), and what `out json` writes is read back as the tree written; base64 (standard and URL-safe) is proved against RFC 4648 with a strict independent decoder (round trip, alphabet, length, the variants differ only in characters 62/63). YAML and TOML includes are partial: their third-party decoders are compared with PyYAML (1.2 core) and tomllib. Tied to the implementation on documents written independently of ucg, through the importer registry and through `include` in built files; truncated/corrupted input and unknown include types must fail the build",
+   note="serde_json/serde_yaml/toml/base64 crates are third party: JSON and base64 are re-modelled and compared byte/value-wise, YAML/TOML only compared with independent decoders; `-0` and integers outside i64 are outside the agreed subset",
+   technique="Coq proof (JSON parser+mapping specification, base64 round trip) + differential correspondence with independent decoders"),
  "C13": dict(category="proof",
    text="Coq state machine of the assertion collector and the `ucg test` driver: the verdict of each file equals its specification (builds and all assertions ok), independent of the other files and their order, exit status non-zero iff some file fails, each assertion logged exactly once; a lemma shows the shared collector of the original code refuted this. Tied to the real binary by running generated test files in every order and comparing verdicts, logs and exit status with the extracted model and with the generator's ground truth",
    note="per-file build abstracted to the list of asserted values; asserts in imported files and directory recursion order not modelled",
